@@ -268,7 +268,7 @@ CHECKS["C15"] = {
 CHECKS["C17"] = {
     "level": "exploration",
     "technique": "schedule exploration through labelled schedule points (build tag verif): rapid-generated sets of bookkeeping operations overlapped at usage.firstLockHeld and rapid-generated connect/drop/upload/exhaust histories with a connection parked at dispatch.userResolved (synctest bubble); plus generated high-contention workloads without hooks; deadlock verdict from a stable goroutine dump (all operation goroutines parked in mutex acquisition), reachability oracle for live sessions",
-    "level_text": "Overlaps of the usage-collection step with commits, other collections, admissions and terminations are forced at the point between its two lock acquisitions, and plain contention of 2..12 goroutines running the periodic upload is added; every operation must complete. Histories of real handshakes in which a connection is parked between resolving its user and creating its session while that user's last session closes (or the user is exhausted) are generated; at every quiescent step each client that still holds a live connection must find its session under the user's single active record, and a user without a record has no live session.",
+    "level_text": "Overlaps of the usage-collection step with commits, other collections, admissions and terminations are forced at the point between its two lock acquisitions, and plain contention of 2..12 goroutines running the periodic upload is added; every operation must complete. Histories of real handshakes in which a connection is parked between resolving its user and creating its session while that user's last session closes (or the user is exhausted) are generated; at every quiescent step each client that still holds a live connection must find its session under the user's single active record, and a user without a record has no live session. A fourth sub-check issues the bookkeeping calls themselves (admission, a session's end reported late by its serving goroutine, termination of a record resolved earlier, upload rounds, exhaustion) in generated orders, including on records that have meanwhile been replaced, with the same ownership invariant after every call.",
     "level_note": "Wall-clock time is used only as patience: a deadlock is declared when no operation finished and the progress counter stood still for 10 s AND two goroutine dumps one second apart show the same operation goroutines parked in mutex acquisition; a run that is slow but moving is waited for (10 min, then exit 2), never reported as a violation. Interleavings other than those through the two labelled points are sampled by contention only.",
     "rule": "LockOrder: 1..4 other operations from {commit, collect, getuser, isactive, terminate} while a collection is parked; Contention: 2..12 goroutines x 200..3000 iterations; Orphan: 2..14 ops from {connect (optionally held), release, drop, upload, exhaust, topup} over 1..2 users; non-trivial (Orphan) = a held dispatch resumed after its user had been terminated; distinct = distinct scenarios.",
     "assumptions": ["no progress for 10 s together with the same >=2 operation goroutines parked in sync.(*Mutex/RWMutex).Lock in two dumps one second apart is a lock cycle"],
@@ -276,6 +276,7 @@ CHECKS["C17"] = {
         {"pkg": SERVER, "run": "^TestVerif_C17_LockOrder$", "checks": {"quick": 40, "thorough": 2000}, "shards": {"thorough": 8}, "timeout": {"quick": 900}},
         {"pkg": SERVER, "run": "^TestVerif_C17_Contention$", "checks": {"quick": 12, "thorough": 600}, "shards": {"thorough": 2}, "timeout": {"quick": 900}},
         {"pkg": SERVER, "run": "^TestVerif_C17_Orphan$", "checks": {"quick": 600, "thorough": 60000}, "shards": {"thorough": 16}, "timeout": {"quick": 900}},
+        {"pkg": SERVER, "run": "^TestVerif_C17_Records$", "checks": {"quick": 2000, "thorough": 200000}, "shards": {"thorough": 8}, "timeout": {"quick": 900}},
     ],
 }
 
